@@ -501,6 +501,14 @@ fn handle(line: &str) -> Result<String, String> {
             let src_hex = rest.split(' ').next().unwrap_or("");
             crate::verif_machine::op_machine(rest, &unhex(src_hex)?)
         }
+        "testrun" => {
+            let src_hex = rest.split(' ').next().unwrap_or("");
+            crate::verif_runner::op_testrun(rest, &unhex(src_hex)?)
+        }
+        "evalupto" => {
+            let src_hex = rest.split(' ').next().unwrap_or("");
+            crate::verif_runner::op_evalupto(rest, &unhex(src_hex)?)
+        }
         "escape" => Ok(hex(&crate::values::escape_string_literal(&unhex(rest)?))),
         "unescape" => {
             let (n_diags, s) = crate::parser::verif_unescape_string(&unhex(rest)?);
